@@ -135,6 +135,10 @@ def export_function(fn, data_segment=(), namer=None):
                 if op == "ret":
                     insts.append(f"Inst {outs} (O_unknown ({RET})) [" + "; ".join(operand(o) for o in inst.operands) + "]")
                     continue
+                if op == "assign" and len(inst.operands) == 1 and isinstance(inst.operands[0], IRLabel):
+                    # a code address (the return pc bound to a param by the inliner); return pcs are not modelled: constant
+                    insts.append(f"Inst {outs} O_assign [OLit 0]")
+                    continue
             if op == "alloca":
                 # the region is named after the output variable (stable across the snapshots of a function) and the function
                 addr = ALLOCA_BASE + (namer.fn_k * 2 ** 20 + var(inst.get_outputs()[0])) * ALLOCA_STRIDE
